@@ -198,8 +198,16 @@ def gen_case(rng, hier, knobs=None):
                 trig.append(t['trigger'])
             desc['mods'].append(['add_transition', t])
         elif kind == 'remove_transition' and trig:
-            desc['mods'].append(['remove_transition', rng.choice(trig), rng.choice(['*', '*'] + pool),
-                                 rng.choice(['*', '*', '*'] + pool)])
+            local = [(t['trigger'], p) for s, p in _walk_paths(states) for t in s['transitions']]
+            if local and rng.random() < 0.5:
+                # a trigger declared only locally inside a nested state (loc<N> names never occur at machine level),
+                # removed wholesale or by the global name of its source
+                t, path = rng.choice(local)
+                src = [tt['source'] for s, p in _walk_paths(states) if p == path for tt in s['transitions'] if tt['trigger'] == t]
+                desc['mods'].append(['remove_transition', t, rng.choice(['*', path + SEP + src[0]]), '*'])
+            else:
+                desc['mods'].append(['remove_transition', rng.choice(trig), rng.choice(['*', '*'] + pool),
+                                     rng.choice(['*', '*', '*'] + pool)])
         elif kind == 'state_cb':
             slot = rng.choice(['on_enter', 'on_exit'] + (['on_final'] if hier else []))
             desc['mods'].append(['state_cb', slot, rng.choice(pool), g.cb()])
@@ -666,7 +674,8 @@ def mod_is_valid(exp, mod):
         scopes_with = [sc for sc, es in exp.trans.items() if any(e['trigger'] == mod[1] for e in es)]
         # only triggers that (still) exist at machine level, so that flat and nested removal agree with the
         # bookkeeping above; a trigger that vanished raises KeyError/AttributeError in the library
-        return '' in scopes_with
+        # … or, on hierarchical machines, only locally inside nested states
+        return '' in scopes_with or (exp.hier and bool(scopes_with))
     if k == 'trans_cb':
         return any(e['trigger'] == mod[2] for e in exp.trans[''])
     if k in ('state_cb', 'helper_cb'):
